@@ -27,7 +27,7 @@ def run(ctx):
         raise vlib.Infra("negative control of the end-to-end stage failed")
     ctx.add_result(ctx.vh("deps-cli", {"buf": buf, "cases": single}, timeout=20000), kind="cli")
     ctx.assumptions += [
-        "end to end: 500 (5000) seeded workspaces with one pinned commit of C materialised on disk twice - as buf.yaml v2 with local modules, deps and a v2 buf.lock, and as buf.work.yaml with v1 modules that each declare the remote modules and pin them in a v1 buf.lock with b4 digests -, remote modules stored with the real ModuleDataStore / CommitStore in a cache directory, the buf binary run offline: build of module A (error class by exit status), ls-files --include-imports = files of the built image, buf build . --path <directory of the module's files> = the image of buf build <module> (files and import flags), dep graph edges",
+        "end to end: 500 (5000) seeded workspaces with one pinned commit of C materialised on disk twice - as buf.yaml v2 with local modules, deps and a v2 buf.lock, and as buf.work.yaml with v1 modules that each declare the remote modules and pin them in a v1 buf.lock with b4 digests -, remote modules stored with the real ModuleDataStore / CommitStore in a cache directory, the buf binary run offline: build of module A (error class by exit status), ls-files --include-imports = files of the built image, buf build . --path <directory of the module's files> = the image of buf build <module> (files and import flags), dep graph edges in DOT and (v2 layout) JSON form",
         "three module names, four files; remote modules are served by an in-process ModuleDataProvider/CommitProvider (creation time = commit id)",
         "when a cycle, an ambiguous path and a missing import coexist any error is accepted; otherwise the error class must match",
     ]
